@@ -108,8 +108,8 @@ def plan(tier, seed):
         for k in range(0, len(pairs), 150):
             groups.append(pairs[k:k + 150])
     wf = []
-    for mode in ("disp", "fsets", "fz", "mesh", "band", "qpoints", "dos", "pdos", "thermal", "tdisp", "writefc", "nac", "load"):
-        for var in range({"disp": 4, "mesh": 6, "band": 5, "qpoints": 2, "dos": 5, "pdos": 3, "thermal": 5, "tdisp": 3, "writefc": 4, "nac": 3, "fsets": 2, "fz": 1, "load": 6}[mode]):
+    for mode in ("disp", "fsets", "fz", "mesh", "band", "qpoints", "dos", "pdos", "thermal", "tdisp", "writefc", "nac", "load", "mass"):
+        for var in range({"mass": 2, "disp": 4, "mesh": 6, "band": 5, "qpoints": 2, "dos": 5, "pdos": 3, "thermal": 5, "tdisp": 3, "writefc": 4, "nac": 3, "fsets": 2, "fz": 1, "load": 6}[mode]):
             wf.append({"kind": "workflow", "mode": mode, "var": var})
             wf.append({"kind": "workflow", "mode": mode, "var": var, "sys": "tri"})
     for var in range(32):
@@ -133,7 +133,7 @@ def settings_from(load, argv=None, conf_text=None):
             f.write(conf_text)
             fn = f.name
         try:
-            args = p.parse_args([])
+            args = p.parse_args(argv or [])  # a configuration file and options together, as in `phonopy run.conf --gc`
             cp = PhonopyConfParser(filename=fn, args=args, default_settings=ctrl)
         finally:
             os.unlink(fn)
@@ -261,7 +261,22 @@ def run_pair(case):
     if d:
         return dict(ok=False, sig="C18/settings/pair/%s+%s" % (da, db), nontrivial=True,
                     msg="%s: options %s together and the equivalent configuration file %r give different settings: %s" % ("phonopy-load" if load else "phonopy", argv, text, d[:3]))
-    return dict(ok=True, nontrivial=True, transitions=2, outcome="ok:pair")
+    # mixed: one of the two in the configuration file, the other one as an option on the same command line
+    ntr = 2
+    for (tfile, oopt, vopt, which) in ((ta, ob, vb, "%s in the file, %s as option" % (da, db)), (tb, oa, va, "%s in the file, %s as option" % (db, da))):
+        if not tfile:
+            continue
+        text1 = "".join("%s = %s\n" % (k.upper(), fmt(v)) for k, v in sorted(tfile.items()))
+        try:
+            cp_mix = settings_from(load, argv=[oopt] + (vopt or []), conf_text=text1)
+        except (SystemExit, Exception):
+            continue
+        ntr += 1
+        d = diff_settings(cp_opt, cp_mix)
+        if d:
+            return dict(ok=False, sig="C18/settings/mixed/%s+%s" % (da, db), nontrivial=True,
+                        msg="%s: %s (file %r, options %s) gives other settings than both as options: %s" % ("phonopy-load" if load else "phonopy", which, text1, [oopt] + (vopt or []), d[:3]))
+    return dict(ok=True, nontrivial=True, transitions=ntr, outcome="ok:pair")
 
 
 # ---------------------------------------------------------------- workflows
@@ -661,6 +676,34 @@ def run_workflow(case, seed):
             if np.abs(fy - lp.get_qpoints_dict()["frequencies"]).max() > 1e-9:
                 return fail("nac-phonons", "qpoints.yaml with --nac %s differs from the library" % opts)
             return dict(ok=True, nontrivial=True, transitions=2, outcome="ok:nac")
+        if mode == "mass":
+            # masses given on the command line / in the configuration file: outputs of the run, and the summary file reloaded
+            import phonopy
+
+            npr = len(lib(seed).primitive)
+            mvals = [30.5, 41.25, 17.0][:npr]
+            mtxt = " ".join("%g" % m_ for m_ in mvals)
+            if var == 0:
+                rc, out = cli(base + ["--mass", mtxt, "--qpoints", "0.1 0.2 0.3 0.5 0 0"])
+            else:
+                open("m.conf", "w").write("MASS = %s\nQPOINTS = 0.1 0.2 0.3 0.5 0 0\n" % mtxt)
+                rc, out = cli(base + ["m.conf"])
+            if rc != 0 or not os.path.exists("phonopy.yaml"):
+                return fail("cli-failed", out[-300:])
+            lp = lib(seed)
+            lp.masses = mvals
+            lp.run_qpoints([[0.1, 0.2, 0.3], [0.5, 0, 0]])
+            want = lp.get_qpoints_dict()["frequencies"]
+            y = yaml.safe_load(open("qpoints.yaml"))
+            got = np.array([[b["frequency"] for b in p_["band"]] for p_ in y["phonon"]])
+            if np.abs(got - want).max() > 1e-9:
+                return fail("mass/run", "qpoints.yaml of a run with masses %s differs from the library with the same masses by %.3g THz" % (mtxt, np.abs(got - want).max()))
+            re_ = phx.quiet(phonopy.load, "phonopy.yaml", fc_calculator="traditional", symmetrize_fc=False, log_level=0)
+            re_.run_qpoints([[0.1, 0.2, 0.3], [0.5, 0, 0]])
+            e = np.abs(re_.get_qpoints_dict()["frequencies"] - want).max()
+            if e > 1e-6 * np.abs(want).max():
+                return fail("mass/reload", "phonopy.yaml of a run with masses %s reloads to phonons differing by %.3g THz (masses in the file: %s)" % (mtxt, e, np.asarray(re_.masses).round(3).tolist()))
+            return dict(ok=True, nontrivial=True, transitions=3, outcome="ok:mass")
         if mode == "pahist":
             # two-step history: the displacement run records one primitive matrix in its yaml file, the later run asks for
             # another one (option or tag): the later setting decides, as it does for phonopy.load(primitive_matrix=...)
